@@ -2,11 +2,13 @@
 from __future__ import annotations
 
 import itertools
+import os
 import time
 import z3
 
 from .values import Infeasible, Unsupported
 
+FEAS_RLIMIT = 300000
 STATS = {'solver_calls': 0, 'solver_s': 0.0, 'unknown': 0}
 
 _glob = itertools.count(1)
@@ -33,10 +35,13 @@ class Path:
         self.pos = 0
         self.pending = []            # alternative decision prefixes discovered on this path
         self.pc = list(parent.pc) if parent else []
+        self.conds = list(parent.conds) if parent else []    # branch decisions / explicit assumptions
+        self.defs = list(parent.defs) if parent else []      # definitional facts about fresh symbols
         self.hyps = list(parent.hyps) if parent else []
         self.index_terms = list(parent.index_terms) if parent else []
         self.binders = list(parent.binders) if parent else []   # active bound index variables
         self.timeout_ms = timeout_ms
+        self.feas_timeout_ms = parent.feas_timeout_ms if parent else 700
         self.journal = None          # loop-body effect journal
         self.journal_floor = 0
         self.depth = (parent.depth + 1) if parent else 0
@@ -48,12 +53,33 @@ class Path:
         self.elem_hooks = parent.elem_hooks if parent else []   # callbacks on new element values
 
     # ---- solver -------------------------------------------------------------------------------------
+    # Every query is given to a FRESH non-incremental solver: with push/pop z3 switches to its incremental
+    # core, which ignored the timeout on string queries and took 20-50 s (measured); a fresh solver answers
+    # the same queries (often `unknown` for satisfiable string problems) within the budget.
+    class _Store:
+        def __init__(self):
+            self.items = []
+
+        def assertions(self):
+            return self.items
+
+        def add(self, f):
+            self.items.append(f)
+
+        def sexpr(self):
+            return '\n'.join(f.sexpr() for f in self.items)
+
+        def reason_unknown(self):
+            return getattr(self, 'reason', '')
+
     def _sync(self):
         if self._solver is None:
-            self._solver = z3.Solver()
-            self._solver.set('timeout', self.timeout_ms)
+            self._solver = Path._Store()
             self._solver_n = 0
             self._inst_done = set()
+            self._lemma_done = set()
+            self._lemma_pos = 0
+            self._extra_for_lemmas = []
         while self._solver_n < len(self.pc):
             self._solver.add(self.pc[self._solver_n])
             self._solver_n += 1
@@ -69,34 +95,70 @@ class Path:
                     continue
                 self._inst_done.add(key)
                 self._solver.add(h.instantiate(c))
+        # lemma instances for the character-class predicates (fixpoint, bounded)
+        from . import ops
+        extra = list(self._extra_for_lemmas)
+        self._extra_lemmas = []
+        for _round in range(4):
+            fresh = self._solver.assertions()
+            start = self._lemma_pos
+            new = ops.theory_lemmas([fresh[i] for i in range(start, len(fresh))] + extra, self._lemma_done)
+            self._lemma_pos = len(fresh)
+            extra = []
+            if not new:
+                break
+            for f in new:
+                self._solver.add(f)
 
-    def check(self, *extra):
-        """sat / unsat / unknown of pc + extra."""
+    def _run(self, extra, timeout_ms, want_model=False):
+        self._extra_for_lemmas = [e for e in extra if z3.is_expr(e)]
         self._sync()
+        s = z3.Solver()
+        if timeout_ms <= 1000:
+            # feasibility query: deterministic resource limit (a timer is not honoured reliably by the
+            # sequence solver and larger budgets ran into a z3 vector overflow after ~25 s, measured)
+            s.set('rlimit', FEAS_RLIMIT)
+        else:
+            s.set('timeout', int(timeout_ms))
+        for f in self._solver.assertions():
+            s.add(f)
+        for e in extra:
+            s.add(e)
         t0 = time.time()
-        self._solver.push()
         try:
-            for e in extra:
-                self._solver.add(e)
-            r = self._solver.check()
-        finally:
-            self._solver.pop()
+            r = s.check()
+        except z3.Z3Exception as ex:
+            r = z3.unknown
+            self._solver.reason = f'z3 exception {ex}'
+        dt = time.time() - t0
         STATS['solver_calls'] += 1
-        STATS['solver_s'] += time.time() - t0
+        STATS['solver_s'] += dt
         if r == z3.unknown:
             STATS['unknown'] += 1
+            try:
+                self._solver.reason = s.reason_unknown()
+            except Exception:
+                pass
+        if dt > 2.0 and os.environ.get('PYVC_SLOW_DUMP'):
+            open(os.environ['PYVC_SLOW_DUMP'], 'w').write(s.to_smt2())
+            raise SystemExit(0)
+        if dt > 2.0 and os.environ.get('PYVC_SLOW'):
+            import sys as _s
+            _s.stderr.write(f'[slow {dt:.1f}s r={r}] extra={[str(e)[:200] for e in extra]} '
+                            f'n_assert={len(self._solver.assertions())}\n')
+        m = None
+        if want_model and r == z3.sat:
+            m = s.model()
+        return r, m
+
+    def check(self, *extra, timeout_ms=None):
+        """sat / unsat / unknown of pc + extra."""
+        r, _ = self._run(extra, timeout_ms or self.timeout_ms)
         return r
 
     def model(self, *extra):
-        self._sync()
-        self._solver.push()
-        try:
-            for e in extra:
-                self._solver.add(e)
-            r = self._solver.check()
-            return self._solver.model() if r == z3.sat else None
-        finally:
-            self._solver.pop()
+        r, m = self._run(extra, self.timeout_ms, want_model=True)
+        return m
 
     def entails(self, f):
         return self.check(z3.Not(f)) == z3.unsat
@@ -107,12 +169,22 @@ class Path:
             return
         if f is False:
             raise Infeasible()
-        f = z3.simplify(f)
-        if z3.is_true(f):
+        g = z3.simplify(f)
+        if z3.is_true(g):
             return
-        if z3.is_false(f):
+        if z3.is_false(g):
             raise Infeasible()
         self.pc.append(f)
+        self.conds.append(f)
+
+    def define(self, f):
+        """definitional fact about fresh symbols (never part of a branch condition)"""
+        if f is True:
+            return
+        if z3.is_true(f):
+            return
+        self.pc.append(f)
+        self.defs.append(f)
 
     def add_hyp(self, vars_, body, origin=''):
         self.hyps.append(Hyp(vars_, body, origin))
@@ -127,18 +199,16 @@ class Path:
         """Decide a (possibly symbolic) condition; forks the exploration when both sides are feasible."""
         if isinstance(cond, bool):
             return cond
-        cond = z3.simplify(cond)
-        if z3.is_true(cond):
+        g = z3.simplify(cond)
+        if z3.is_true(g):
             return True
-        if z3.is_false(cond):
+        if z3.is_false(g):
             return False
-        rt = self.check(cond)
+        rt = self.check(cond, timeout_ms=self.feas_timeout_ms)
         if rt == z3.unsat:
-            self.pc.append(z3.Not(cond))
             return False
-        rf = self.check(z3.Not(cond))
+        rf = self.check(z3.Not(cond), timeout_ms=self.feas_timeout_ms)
         if rf == z3.unsat:
-            self.pc.append(cond)
             return True
         if self.pos < len(self.decisions):
             d = self.decisions[self.pos]
@@ -148,6 +218,7 @@ class Path:
             self.pending.append(self.decisions[:-1] + [False])
         self.pos += 1
         self.pc.append(cond if d else z3.Not(cond))
+        self.conds.append(cond if d else z3.Not(cond))
         return d
 
     def choose(self, n, label=''):
